@@ -28,6 +28,8 @@ struct Spec {
     out_h_ret: &'static str,
     /// the world also has `export inl: interface { q: func(); }` (an instance export under a plain name)
     inl: bool,
+    /// the world has a world-level `use <iface>.{r};` (imports the interface and the *type* `r`)
+    world_use: Option<&'static str>,
 }
 
 impl Spec {
@@ -62,8 +64,13 @@ impl Spec {
         s.push_str("}\n");
         s.push_str(&format!("interface out {{\n  h: func() -> {};\n}}\n", self.out_h_ret));
         s.push_str("interface other {\n  o: func();\n}\n");
+        s.push_str("interface alt {\n  record r { b: u16 }\n}\n");
         if with_world {
-            s.push_str("world w {\n  import api;\n");
+            s.push_str("world w {\n");
+            if let Some(i) = self.world_use {
+                s.push_str(&format!("  use {i}.{{r}};\n"));
+            }
+            s.push_str("  import api;\n");
             if self.explicit_types {
                 s.push_str("  import types;\n");
             }
@@ -95,6 +102,10 @@ fn component_world(dep: &Spec, imports: &[&str], exports: &[&str], log_ty: &str,
             "api" | "types" | "other" => s.push_str(&format!("  import {};\n", dep.iface_ref(i))),
             "log" => s.push_str(&format!("  import log: func(msg: {log_ty});\n")),
             "extra" => s.push_str("  import extra: func();\n"),
+            // a world-level `use`: the component imports the interface and the type `r` (kept
+            // alive by an exported function)
+            "use-r" => s.push_str(&format!("  use {}.{{r}};\n  export conv: func(x: r);\n", dep.iface_ref("types"))),
+            "use-alt-r" => s.push_str(&format!("  use {}.{{r}};\n  export conv: func(x: r);\n", dep.iface_ref("alt"))),
             _ => {}
         }
     }
@@ -204,6 +215,9 @@ fn one_case(out: &mut Out, label: &str, target: &Spec, dep: &Spec, imports: &[&s
             None => format!("t:w/{n}"),
         };
         let mut w = "world w {\n".to_string();
+        if let Some(i) = target.world_use {
+            w.push_str(&format!("  use {}.{{r}};\n", vr(i)));
+        }
         w.push_str(&format!("  import {};\n", vr("api")));
         if target.explicit_types {
             w.push_str(&format!("  import {};\n", vr("types")));
@@ -424,6 +438,9 @@ fn one_case(out: &mut Out, label: &str, target: &Spec, dep: &Spec, imports: &[&s
             }
         }
         for (n, k) in &gimports {
+            if let ItemKind::Type(_) = k {
+                out.count(if w.imports.contains_key(n) { "type-import:in-world" } else { "type-import:not-in-world" });
+            }
             if let (ItemKind::Type(_), Some(wk)) = (k, w.imports.get(n)) {
                 out.count(match wk.promote() {
                     ItemKind::Instance(_) => "confusion:type-for-instance-import",
@@ -557,6 +574,11 @@ fn generate(args: &Args, seed: u64, thorough: bool, shard: usize, nshards: usize
             api_f_param: "r",
             out_h_ret: "string",
             inl: r.chance(1, 4),
+            world_use: match r.below(10) {
+                0 | 1 => Some("types"),
+                2 => Some("alt"),
+                _ => None,
+            },
         };
         let mut dep = target.clone();
         let mut imports = vec!["api", "log"];
@@ -570,7 +592,7 @@ fn generate(args: &Args, seed: u64, thorough: bool, shard: usize, nshards: usize
         let mut decls: Vec<&str> = Vec::new();
         let mut log_ty = "string";
         let mut run_ret = target.run_ret;
-        let label = match r.below(16) {
+        let label = match r.below(19) {
             0 | 1 => "conforming",
             2 => {
                 // imports fewer
@@ -646,6 +668,30 @@ fn generate(args: &Args, seed: u64, thorough: bool, shard: usize, nshards: usize
                         "func-for-instance-export"
                     }
                     _ => "missing-instance-export",
+                }
+            }
+            16 | 17 | 18 => {
+                // a type import of the composition: the component has a world-level `use` (it
+                // imports the interface and the type `r`); the world has the same use / none /
+                // a type `r` of another interface
+                let which = r.below(8);
+                imports.insert(0, if which == 0 { "use-alt-r" } else { "use-r" });
+                match r.below(5) {
+                    0 | 1 => {
+                        target.world_use = Some("types");
+                        dep.world_use = Some("types");
+                        if which == 0 { "world-use-type-differs" } else { "conforming-world-use" }
+                    }
+                    2 | 3 => {
+                        target.world_use = None;
+                        dep.world_use = None;
+                        "world-use-type-not-in-target"
+                    }
+                    _ => {
+                        target.world_use = Some("alt");
+                        dep.world_use = Some("alt");
+                        if which == 0 { "conforming-world-use-alt" } else { "world-use-type-differs" }
+                    }
                 }
             }
             15 => {
